@@ -951,7 +951,10 @@ def valid_call(rng, envj, fn=None):
     if fn in ("overlap_integral",):
         a = [basis]
         if rng.random() < 0.3:
-            kw["tol_screen"] = F_(Fraction(1, 1 << rng.randint(3, 40)))
+            # tight tolerances (nothing screened) as well as loose ones (cutoff below the distance of the centres:
+            # shell pairs really are screened)
+            kw["tol_screen"] = F_(rng.choice([Fraction(1, 1 << rng.randint(3, 40)), Fraction(1, 1 << rng.randint(1, 3)),
+                                              1 - Fraction(1, 1 << rng.randint(4, 30))]))
     elif fn == "overlap_integral_asymmetric":
         a = [basis, "@B0"]
         kw = {}
@@ -1161,6 +1164,8 @@ def directed_cases():
                 + ops
         ops += [{"op": "call", "fn": "overlap_integral", "a": ["@B"], "k": {}},
                 {"op": "call", "fn": "evaluate_basis", "a": ["@B", "@pts"], "k": {}},
+                # screening with a loose tolerance: every pair of shells on different centres is screened
+                {"op": "call", "fn": "overlap_integral", "a": ["@B"], "k": {"tol_screen": F_(1 - Fraction(1, 1 << 20))}},
                 {"op": "call", "fn": "overlap_integral", "a": ["@B"], "k": {}}]
         out.append({"env": envj, "ops": copy.deepcopy(ops)})
     # component conventions: default order / custom order of the same l / default again; a reused list of labels
